@@ -26,13 +26,13 @@ type nodeSpec struct {
 	Kind string `json:"kind"` // dv1 dv2 dv3 inherit counter dset subtract
 	In   []int  `json:"in"`   // input indices into the variable pool / set pool (mod pool size at creation time)
 	Co   []int  `json:"co"`   // coefficients of the linear compute function (one per input + constant)
-	Cond int    `json:"cond"` // counter: -1 = default condition (!= 0), otherwise value > Cond
+	Cond int    `json:"cond"` // counter: -1 = default condition (!= 0), 0/1 = value > Cond, 2 = value < 2, 3 = value == 0, 4 = even (see condOf)
 }
 
 func (n nodeSpec) String() string {
 	switch n.Kind {
 	case "counter":
-		return fmt.Sprintf("counter(cond>%d) monitors %v", n.Cond, n.In)
+		return fmt.Sprintf("counter(cond %s) monitors %v", condName(n.Cond), n.In)
 	case "dv1", "dv2", "dv3":
 		return fmt.Sprintf("%s in=%v co=%v", n.Kind, n.In, n.Co)
 	}
@@ -174,10 +174,31 @@ func linear(co []int, in ...int) int {
 }
 
 func condOf(c int) func(int) bool {
-	if c < 0 {
+	switch {
+	case c < 0:
 		return nil
+	case c == 2:
+		return func(x int) bool { return x < 2 } // holds for the zero value
+	case c == 3:
+		return func(x int) bool { return x == 0 } // holds only for the zero value
+	case c == 4:
+		return func(x int) bool { return x%2 == 0 } // holds for the zero value and others
 	}
 	return func(x int) bool { return x > c }
+}
+
+func condName(c int) string {
+	switch {
+	case c < 0:
+		return "!= 0 (default)"
+	case c == 2:
+		return "< 2"
+	case c == 3:
+		return "== 0"
+	case c == 4:
+		return "even"
+	}
+	return fmt.Sprintf("> %d", c)
 }
 
 func (t *table) create(spec nodeSpec) {
@@ -376,7 +397,7 @@ func (t *table) check() []string {
 				}
 			}
 			if got := n.counter.Get(); got != want {
-				errs = append(errs, fmt.Sprintf("%s: Get() = %d, %d of the currently monitored inputs [%s] satisfy the condition (>%d)", name, got, want, strings.Join(vals, " "), n.spec.Cond))
+				errs = append(errs, fmt.Sprintf("%s: Get() = %d, %d of the currently monitored inputs [%s] satisfy the condition (%s)", name, got, want, strings.Join(vals, " "), condName(n.spec.Cond)))
 			}
 		case "dset":
 			want := map[int]bool{}
@@ -502,7 +523,7 @@ func genNode() *rapid.Generator[nodeSpec] {
 			n.Co = rapid.SliceOfN(rapid.IntRange(0, 3), 1, 1).Draw(t, "preset")
 		case "counter":
 			n.In = rapid.SliceOfN(ix, 0, 3).Draw(t, "in")
-			n.Cond = rapid.IntRange(-1, 1).Draw(t, "cond")
+			n.Cond = rapid.IntRange(-1, 4).Draw(t, "cond")
 		case "dset":
 			n.In = rapid.SliceOfN(ix, 1, 3).Draw(t, "in")
 		case "subtract":
@@ -551,7 +572,7 @@ func genInputs(t *rapid.T) ([]int, [][]int) {
 const checkGraphSeq = "graph_sequential"
 
 func TestGraphSeq(t *testing.T) {
-	stats.Rule(checkGraphSeq, "rapid draws 2-4 input Variables[int], 2-3 input Sets[int] (universe 0..5) with initial values and 1-16 actions: writes (Set/Compute on a variable; Add/Delete/AddAll/DeleteAll/Apply/Compute/Replace on a set) and structural actions (create DerivedVariable1/2/3 with a linear compute function, Variable.InheritFrom, Counter with 0-3 monitored inputs and default / threshold condition, DerivedSet.InheritFrom(1-3 sources), SubtractReactive(source, others); inputs may be earlier nodes; unsubscribe a derived variable; Monitor / unsubscribe a monitored input; InheritFrom another group / drop a group). Oracle after every action: each node == its defining function of the current Get()/ToSlice() of its inputs. Preconditions kept: no cycles, an input is monitored by one counter at most once at a time, an unsubscribe function is called once. Non-trivial = >=2 writes after the first node exists. Distinct by action list.")
+	stats.Rule(checkGraphSeq, "rapid draws 2-4 input Variables[int], 2-3 input Sets[int] (universe 0..5) with initial values and 1-16 actions: writes (Set/Compute on a variable; Add/Delete/AddAll/DeleteAll/Apply/Compute/Replace on a set) and structural actions (create DerivedVariable1/2/3 with a linear compute function, Variable.InheritFrom, Counter with 0-3 monitored inputs and default / threshold condition or a condition that holds for the zero value (< 2, == 0, even), DerivedSet.InheritFrom(1-3 sources), SubtractReactive(source, others); inputs may be earlier nodes; unsubscribe a derived variable; Monitor / unsubscribe a monitored input; InheritFrom another group / drop a group). Oracle after every action: each node == its defining function of the current Get()/ToSlice() of its inputs. Preconditions kept: no cycles, an input is monitored by one counter at most once at a time, an unsubscribe function is called once. Non-trivial = >=2 writes after the first node exists. Distinct by action list.")
 	rapid.Check(t, func(rt *rapid.T) {
 		p := graphSeqProg{}
 		p.VarInit, p.SetInit = genInputs(rt)
